@@ -58,6 +58,7 @@ func runC14(p *core.Program, r *core.Report) {
 	c14R11(p, r, fs)
 	// A5: "no panic": every index and slice expression of the resolver is in bounds
 	c14R12(p, r, fs)
+	c14R13(p, r, fs)
 	r.Floor("A5", 10)
 	for _, f := range fs {
 		a5Check(r, "A5", f, resultIndexTactic(p))
@@ -1689,5 +1690,70 @@ func c14R12(p *core.Program, r *core.Report, fs []*core.Func) {
 	}
 	if n == 0 {
 		r.OK(rule, &core.Func{Pkg: p.Pkg("pkg/types"), Name: "<package>"}, "the resolver does not match arguments to variadic parameters", 0, "no call of (*types.Signature).Variadic in the resolver: nothing to decide (a variadic parameter has a slice type, so a test of the parameter's own type against the result's type never follows it)")
+	}
+}
+
+// c14R13: "each alternative is assignable to the declared result type": the resolver follows the assignments to ONE
+// object. The tracing function compares `ObjectOf(lhs) == target`; ObjectOf of the blank identifier is nil, so a nil
+// target makes every `_ = f()` / `_, err := f()` count as an assignment to the returned value. At every call of the
+// tracing function the target is therefore known to be an object: the result of an ObjectOf / Selections lookup taken
+// unconditionally for the very identifier at hand, or a value under a dominating `target != nil`.
+func c14R13(p *core.Program, r *core.Report, fs []*core.Func) {
+	const rule = "R13"
+	r.Floor(rule, 2)
+	// the tracing function: the resolver method with a types.Object parameter
+	var tracer *core.Func
+	tk := -1
+	for _, f := range fs {
+		root := f.Root()
+		if root.Decl == nil || root.Decl.Type.Params == nil {
+			continue
+		}
+		i := 0
+		for _, fld := range root.Decl.Type.Params.List {
+			for range fld.Names {
+				if core.NamedTypeName(root.Info().TypeOf(fld.Type)) == "go/types.Object" {
+					tracer, tk = root, i
+				}
+				i++
+			}
+		}
+	}
+	if tracer == nil {
+		r.Anchor(rule, "the resolver function that follows the assignments to a types.Object")
+		return
+	}
+	n := 0
+	for _, cs := range allCalls(p) {
+		if cs.In.Body == nil || core.CalleeFunc(cs.In.Info(), cs.Call) != tracer.Obj() || tk >= len(cs.Call.Args) {
+			continue
+		}
+		n++
+		in := cs.In
+		info := in.Info()
+		arg := cs.Call.Args[tk]
+		good, how := false, ""
+		v := core.VarOf(info, arg)
+		if v != nil {
+			for _, fct := range graph(in).FactsAt(graph(in).PointOf(cs.Call)) {
+				if b, isB := ast.Unparen(fct.Cond).(*ast.BinaryExpr); isB && fct.Tag == nil && (b.Op == token.NEQ) == fct.Val && (b.Op == token.NEQ || b.Op == token.EQL) {
+					if (core.VarOf(info, b.X) == v && constNil(info, b.Y)) || (core.VarOf(info, b.Y) == v && constNil(info, b.X)) {
+						good, how = true, "dominated by "+v.Name()+" != nil"
+					}
+				}
+			}
+			if !good {
+				if d, single := core.SingleDef(info, in.Root().Body, v); single && d.Rhs != nil && d.Index < 0 && (d.Kind == "define" || d.Kind == "var") {
+					if c, isCall := ast.Unparen(d.Rhs).(*ast.CallExpr); isCall && strings.HasSuffix(core.CalleeName(info, c), ").ObjectOf") {
+						good, how = true, "the object of the identifier at hand ("+core.ExprStr(d.Rhs)+"), taken unconditionally"
+					}
+				}
+			}
+		}
+		r.Check(good, rule, in, "the traced target is an object, never nil: "+core.ExprStr(arg), cs.Call.Pos(), how,
+			"the object whose assignments are followed can be nil here (assigned on one branch only, or looked up in a table that has no entry for qualified identifiers): nil equals ObjectOf of the blank identifier, so the right-hand side of the last `_ = …` before the return is reported as an alternative of the result - with whatever type it has")
+	}
+	if n == 0 {
+		r.Anchor(rule, "calls of the tracing function")
 	}
 }
